@@ -1,15 +1,17 @@
 #!/bin/bash
 # usage: tools/seed_try_copy.sh <ID> <name> [extra run_check args]
 # like step 2 of seed_try.sh, but on a scratch copy of /repo under /dev/shm (FRAPPY_VERIF_REPO), so that /repo is
-# not touched (for use while something else reads /repo, e.g. selftest/sensitivity.py); nothing is stored
+# not touched (for use while something else reads /repo, e.g. selftest/sensitivity.py).
+# Writes seeded/<name>/check_output.txt and seeded/<name>/replays/ like seed_try.sh does.
 set -u
 ID=$1; NAME=$2; shift; shift
 D=/verif/seeded/$NAME
 S=$(mktemp -d /dev/shm/frappy-try-XXXXXX)
 for sub in frappy frappy_demo frappy_mlz frappy_psi frappy_ess cfg; do [ -d /repo/$sub ] && cp -r /repo/$sub $S/; done
 patch -p1 -s -d $S -i $D/patch.diff || { echo "patch failed"; rm -rf $S; exit 3; }
-FRAPPY_VERIF_REPO=$S timeout 1800 /venv/bin/python /verif/run_check.py $ID --tier quick --no-evidence --replay-dir $S/replays "$@" > $S/out.txt 2>&1
+rm -rf $D/replays
+FRAPPY_VERIF_REPO=$S timeout 1800 /venv/bin/python /verif/run_check.py $ID --tier quick --no-evidence --replay-dir $D/replays "$@" > $D/check_output.txt 2>&1
 rc=$?
 echo "check $ID on a scratch copy: exit=$rc"
-grep -aE "^(VIOLATION|HARNESS|  C[0-9][0-9]\.)|quick:" $S/out.txt | sed "s#$S/replays/##" | cut -c1-260 | head -12
+grep -aE "^(VIOLATION|HARNESS|  C[0-9][0-9]\.)|quick:" $D/check_output.txt | cut -c1-260 | head -12
 rm -rf $S
